@@ -370,14 +370,14 @@ func (cr *ChunkReader) parseChunkHeaderBytes(header []byte, l *int) (int64, stri
 
 	// After the first chunk each chunk header should start
 	// with "\n\r\n"
-	if !cr.isFirstHeader && stashLen == 0 {
+	// (the CRLF stays in place, and in the stash, until the header is complete)
+	skipped := 0
+	if !cr.isFirstHeader {
 		err := readAndSkip(rdr, '\r', '\n')
 		if err != nil {
 			return cr.handleRdrErr(err, header)
 		}
-
-		copy(header, header[2:])
-		*l = *l - 2
+		skipped = 2
 	}
 
 	// read and parse the chunk size
@@ -466,7 +466,7 @@ func (cr *ChunkReader) parseChunkHeaderBytes(header []byte, l *int) (int64, stri
 		return cr.handleRdrErr(err, header)
 	}
 
-	ind := bytes.Index(header, []byte{'\r', '\n'})
+	ind := bytes.Index(header[skipped:], []byte{'\r', '\n'}) + skipped
 	cr.isFirstHeader = false
 
 	return chunkSize, sig, ind + len(chunkHdrDelim) - stashLen, nil
